@@ -131,21 +131,24 @@ def run(ctx):
             kws = {k.arg: norm(k.value) for k in c.keywords}
             ctx.check(set(kws) <= {'stderr', 'env', 'bufsize'} and kws.get('stderr') == 'self.stderr_fd', 'C13.3', 'child:keywords', f_run.loc(c),
                       'only stderr (our pipe), env and bufsize are set: stdout/stdin untouched, no shell, no check', 'subprocess.run keywords are %s' % kws)
-            envname = kws.get('env')
             idx = p.events.index(e)
-            inits = [x for x in p.events[:idx] if x.kind == 'bind' and x.target == envname]
-            wd = [x for x in p.events[:idx] if x.kind == 'store' and norm(x.node.targets[0]) == "%s['WAYLAND_DEBUG']" % envname and norm(x.node.value) == "'1'"] if envname else []
-            ctx.check(bool(envname) and len(inits) == 1 and norm(inits[0].value) == 'os.environ.copy()' and len(wd) == 1, 'C13.3', 'child:env', f_run.loc(c),
-                      'the environment is a copy of ours with WAYLAND_DEBUG=1 set before the start', 'environment is %s / WAYLAND_DEBUG stores %s' % ([norm(x.value) for x in inits], [x.text for x in wd]))
-            others = [x for x in p.events[:idx] if x.kind in ('store', 'del') and envname and norm(x.node.targets[0] if hasattr(x.node, 'targets') else x.node).startswith(envname + '[')
-                      and x not in wd]
-            ctx.check(all("'LD_LIBRARY_PATH'" in x.text for x in others), 'C13.3', 'child:env-other-vars', f_run.loc(c), 'no other variable of the child is changed except LD_LIBRARY_PATH',
+            envsym = e.kwargs.get('env')
+            envtxt = norm(envsym)
+            same_obj = lambda x: x.recv is not None and norm(x.recv) == envtxt and getattr(x.recv, '_ep', None) == getattr(envsym, '_ep', None)
+            env_stores = [x for x in p.events[:idx] if x.kind in ('store', 'del') and same_obj(x)]
+            wd = [x for x in env_stores if x.kind == 'store' and x.target == envtxt + "['WAYLAND_DEBUG']" and norm(x.value) == "'1'"]
+            muts = [x for x in p.events[:idx] if x.kind == 'call' and x.recv is not None and norm(x.recv) == envtxt and x.ftext and x.ftext.split('.')[-1] in ('update', 'pop', 'clear', 'setdefault', 'popitem')]
+            ctx.check(envtxt == 'os.environ.copy()' and len(wd) == 1 and env_stores[-1:] and (wd[0] is env_stores[-1] or all("'WAYLAND_DEBUG'" not in (x.target or '') for x in env_stores[env_stores.index(wd[0]) + 1:])) and not muts,
+                      'C13.3', 'child:env', f_run.loc(c),
+                      'the environment is a copy of ours with WAYLAND_DEBUG=1 stored unconditionally before the start', 'environment is %s / WAYLAND_DEBUG stores %s / other mutations %s' % (envtxt[:60], [x.text for x in wd], [x.text[:40] for x in muts]))
+            others = [x for x in env_stores if x not in wd]
+            ctx.check(all("'LD_LIBRARY_PATH'" in (x.target or '') for x in others), 'C13.3', 'child:env-other-vars', f_run.loc(c), 'no other variable of the child is changed except LD_LIBRARY_PATH',
                       'child environment also changes %s' % [x.text[:60] for x in others])
             closes = [x for x in p.events[idx:] if x.kind == 'call' and x.ftext == 'os.close' and x.argtext(0) == 'self.stderr_fd']
             ctx.check(len(closes) == 1, 'C13.3', 'child:write-end-closed-after', f_run.loc(c), 'our write end of the pipe is closed after the child returned (so the reader sees end of input)')
             st = [x for x in p.events[idx:] if x.kind == 'store' and x.target == 'self.returncode']
-            ctx.check(len(st) == 1 and norm(st[0].node.value).endswith(').returncode') and norm(st[0].node.value).startswith('subprocess.run('), 'C13.4', 'status:from-child', f_run.loc(c),
-                      'returncode <- subprocess.run(...).returncode', 'returncode <- %s' % [norm(x.node.value)[:60] for x in st])
+            ctx.check(len(st) == 1 and norm(st[0].value).endswith(').returncode') and norm(st[0].value).startswith('subprocess.run(') and getattr(getattr(st[0].value, 'value', None), '_ep', None) == e.ep, 'C13.4', 'status:from-child', f_run.loc(c),
+                      'returncode <- subprocess.run(...).returncode of that very run', 'returncode <- %s' % [norm(x.value)[:60] for x in st])
     ctx.floor('C13.3', nrun, 1, 'subprocess.run call')
     f_rp = repo.func('runner.run_program')
     for p in paths_of(repo, f_rp, asserts='ignore'):
